@@ -6,6 +6,7 @@ import ast
 from sa.effects import Effects
 from sa.model import AnalysisError, Program, norm, walk_no_nested
 from sa.report import Results
+from sa.util import callee, handler_names, parent_map
 from sa.rules.c12 import check_bare_names
 from sa.rules import c14
 from sa.tables.reviewed import Reviewed
@@ -48,6 +49,51 @@ def callee_head_acceptance(prog: Program, res: Results, rid: str, rule_stats) ->
                         f"{f.key}: `{norm(n)[:80]}` accepts {bad} itself as function-like instead of walking to the head of the curried "
                         f"call: `\"prefix\" extra {{ … }}` / `import ./x.nix {{ }} {{ … }}` become editable shapes and set/rm rewrite them "
                         f"instead of refusing")
+
+
+def creation_sees_inherits(prog: Program, res: Results, rid: str) -> None:
+    """a name can also be defined by `inherit name;` / `inherit (src) name;`: before set creates a binding under a name, that
+    kind of definition has to be ruled out as well, or the result defines the attribute twice"""
+    from sa.cfg import CFG, edges_establishing
+    r = res.rule(rid, "a binding is created under a name only after every kind of definition of that name in the set was ruled "
+                 "out, inherit clauses included: each creating store `S[key] = …` in the CLI set functions is dominated by the "
+                 "KeyError edge of the mapping lookup `S[key]` (which answers for inherited names) or by an explicit scan of the "
+                 "set's Inherit entries — a miss of _find_binding alone does not rule out `inherit key;`", floor=2)
+    for key in ("_set_value_in_attrset", "_resolve_npath_parent"):
+        f = prog.func(key)
+        res.analysed_functions.add(key)
+        cfg = CFG(f.node)
+        value_param = next((p_ for p_ in f.params() if "value" in p_), None)
+        for n in cfg.nodes:
+            a = n.ast
+            if not (isinstance(a, ast.Assign) and isinstance(a.targets[0], ast.Subscript) and isinstance(a.targets[0].value, ast.Name)
+                    and isinstance(a.targets[0].slice, ast.Name)):
+                continue
+            cont, k = a.targets[0].value.id, a.targets[0].slice.id
+            r.instances += 1
+            # evidence 1: inside `except KeyError` of a try whose body evaluates cont[k]
+            ok = False
+            pm = parent_map(f.node)
+            cur = a
+            while cur in pm and not ok:
+                cur = pm[cur]
+                if isinstance(cur, ast.ExceptHandler) and "KeyError" in handler_names(cur):
+                    tr = pm.get(cur)
+                    if isinstance(tr, ast.Try) and any(isinstance(x, ast.Subscript) and norm(x) == f"{cont}[{k}]" for b in tr.body for x in ast.walk(b)):
+                        ok = True
+            # evidence 2: dominated by an explicit inherit scan (a test mentioning Inherit over cont.values) that raised / returned
+            if not ok:
+                scans = edges_establishing(cfg, lambda at, t: "Inherit" in norm(at) and cont in norm(at))
+                scans += [(m, lab) for m in cfg.nodes if m.kind == "test" for lab in (True, False)
+                          if isinstance(m.ast, ast.Call) and callee(m.ast) in ("_is_inherited", "_inherits_name", "_find_inherit") and cont in norm(m.ast)]
+                scans += edges_establishing(cfg, lambda at, t: isinstance(at, ast.Call) and (callee(at) or "").find("inherit") >= 0 and cont in norm(at))
+                ok = bool(scans) and cfg.all_paths_pass(n, cut_edges=scans)
+            r.ob(ok, {"site": key, "creating_store": norm(a)[:60]})
+            if not ok:
+                res.add(rid, (key, "binding created without ruling out an inherited definition", f"{cont}[{k}]"), f.loc(a),
+                        f"{key}: `{norm(a)[:60]}` creates a binding after lookups that only see `name = value;` bindings: on "
+                        f"`{{ inherit meta; x = 1; }}`, `set meta '{{ }}'` appends `meta = {{ }};` next to `inherit meta;` — the attribute "
+                        f"is defined twice, which Nix rejects")
 
 
 def run(prog: Program) -> Results:
@@ -151,6 +197,7 @@ def run(prog: Program) -> Results:
                         f"`{norm(d)[:60] if not isinstance(d, str) else 'the raw parameter'}`, which is not: a parenthesised expression in that "
                         f"position makes the test fail and the edit is refused because of the wrapper")
     callee_head_acceptance(prog, res, "R-C05-7", r7)
+    creation_sees_inherits(prog, res, "R-C05-10")
     from sa.rules import merge
     merge.check(prog, res, "R-C05-5", "R-C05-6")
     from sa.rules import cursor
